@@ -4,7 +4,8 @@ Correspondence of Model/C18.v (step / restart over disk, blob table, completed s
 BlobManager + SQLiteStorage + BlobFile + StreamDescriptor.create_stream running in temp directories, on
 generated histories of completions, unfinished downloads, publishes, API deletions, stream deletions, files
 added / overwritten / removed behind the daemon's back, forced table rows, process deaths between a file write
-and its database write (whole file, partial file, mid-publish) and restarts.
+and its database write (whole file, partial file, mid-publish; simulated in-process, and as a genuine SIGKILL of a
+child process running the real code), restarts in three modes and with config.save_blobs on or off.
 
 Monitor (independent of the model): at every restart the property's clauses are evaluated on what the
 implementation left on disk (os.listdir / os.path.isfile), in the table (own sqlite3 connection) and in
@@ -26,7 +27,7 @@ import lbry.wallet  # noqa: F401  (import order)
 from lbry.conf import Config
 from lbry.extras.daemon.storage import SQLiteStorage
 from lbry.blob.blob_manager import BlobManager
-from lbry.blob.blob_file import is_valid_blobhash
+from lbry.blob.blob_file import is_valid_blobhash, BlobFile
 from lbry.error import InvalidBlobHashError
 from lbry.stream.descriptor import StreamDescriptor
 import lbry.stream.descriptor as descriptor_module
@@ -141,7 +142,9 @@ class World:
         self.bm = None
         self.dead = True
 
-    async def restart(self, mode):
+    async def restart(self, mode, save=None):
+        if save is not None:
+            self.conf.save_blobs = save            # the setting the next process lifetime runs with
         if self.bm is not None and mode == 'stop_same':
             # Component stop/start on the same objects: stop() then setup()
             await self.drain()
@@ -253,7 +256,7 @@ class World:
             blob.set_length(length)
             writer.write(data)
             await self.drain()
-        else:
+        elif isinstance(blob, BlobFile):
             p = os.path.join(self.blob_dir, h)
             if not os.path.isdir(p):
                 with open(p, 'wb') as f:
@@ -379,6 +382,8 @@ def model_ops(case):
     for o in case['ops']:
         k = o['op']
         m = {'op': k}
+        if k == 'restart' and o.get('save') is not None:
+            m = {'op': 'restart_save', 'b': bool(o['save'])}
         if o.get('q'):
             m['q'] = True
         if k in ('complete', 'touch'):
@@ -449,7 +454,7 @@ async def run_ops(w, case, ops, on_restart, trace):
         k = o['op']
         if k == 'restart':
             before = w.observe()
-            await w.restart(o.get('mode', 'new'))
+            await w.restart(o.get('mode', 'new'), o.get('save'))
             r = 'done'
             on_restart(before, w.observe())
         elif k == 'ext_file':
@@ -653,7 +658,7 @@ def make_stream(rng, idx, nblobs=None, real=False):
             'seed': rng.randbytes(6).hex(), 'size': size, 'chunk': chunk}
 
 
-def gen_case(rng, nops, with_dirs=False, inject=True):
+def gen_case(rng, nops, with_dirs=False, inject=True, toggle_save=False):
     nb = rng.randrange(2, 7)
     blobs = {}
     for _ in range(nb):
@@ -664,6 +669,8 @@ def gen_case(rng, nops, with_dirs=False, inject=True):
     invalid = rng.sample(INVALID, 3)
     case = {'blobs': blobs, 'streams': [], 'ops': []}
     ops = case['ops']
+    if toggle_save and rng.random() < 0.6:
+        ops.append({'op': 'restart', 'mode': 'new', 'save': False})
     published = []          # stream indexes published (possibly crashed)
 
     def any_name():
@@ -698,9 +705,37 @@ def gen_case(rng, nops, with_dirs=False, inject=True):
         else:
             ops.append({'op': 'ext_dir', 'n': n})
 
+    def burst():
+        # several operations in a row on ONE hash: stale cache entries, replaced files, rows without files ...
+        h = rng.choice(pool)
+        ln = len(blobs[h]) // 2
+        for _ in range(rng.randrange(3, 8)):
+            c = rng.random()
+            if c < 0.22:
+                ops.append({'op': 'complete', 'h': h, 'len': ln})
+            elif c < 0.32:
+                ops.append({'op': 'touch', 'h': h, 'len': ln})
+            elif c < 0.44:
+                ops.append({'op': 'ext_file', 'n': h, 'size': ln, 'true_content': True})
+            elif c < 0.54:
+                ops.append({'op': 'ext_file', 'n': h, 'size': rng.choice([0, 1, ln + 1, max(ln - 1, 0)])})
+            elif c < 0.66:
+                ops.append({'op': 'ext_remove', 'n': h})
+            elif c < 0.78:
+                ops.append({'op': 'delete', 'hs': [h], 'from_db': rng.random() < 0.5})
+            elif c < 0.84 and inject:
+                ops.append({'op': 'ext_db', 'h': h, 'st': rng.choice([None, 'pending', 'finished'])})
+            elif c < 0.90:
+                ops.append({'op': 'crash_write', 'h': h, 'len': ln, 'written': rng.choice([ln, ln, ln // 2, 0])})
+                ops.append({'op': 'restart', 'mode': 'new'})
+            else:
+                ops.append({'op': 'restart', 'mode': rng.choice(['new', 'stop_new', 'stop_same'])})
+
     while len(ops) < nops:
         c = rng.random()
-        if c < 0.20:
+        if c < 0.12:
+            burst()
+        elif c < 0.20:
             h = rng.choice(pool)
             ops.append({'op': 'complete', 'h': h, 'len': len(blobs[h]) // 2})
         elif c < 0.24:
@@ -736,6 +771,8 @@ def gen_case(rng, nops, with_dirs=False, inject=True):
             ops.append({'op': 'ext_db', 'h': any_name(), 'st': rng.choice([None, 'pending', 'finished', 'finished'])})
         elif c < 0.97:
             ops.append({'op': 'restart', 'mode': rng.choice(['new', 'stop_new', 'stop_same'])})
+            if toggle_save and rng.random() < 0.5:
+                ops[-1]['save'] = rng.random() < 0.4
             if rng.random() < 0.4:
                 ops.append({'op': 'restart', 'mode': rng.choice(['new', 'stop_new', 'stop_same'])})
         else:
@@ -766,14 +803,16 @@ def hname(i):
     return hashlib.sha384(b'prestate%d' % i).hexdigest()
 
 
-def big_case(n):
-    """more than 500 UNRECORDED files (nine in ten have no finished row): the batch branch of
-    ensure_completed_blobs_status"""
+def big_case(unrecorded, recorded=57, missing=20):
+    """`unrecorded` files without a finished row (more than 500 reaches the batch branch of
+    ensure_completed_blobs_status), `recorded` files with one, `missing` finished rows without a file"""
+    n = unrecorded + recorded
     ops = [{'op': 'ext_file', 'n': hname(i), 'size': i % 7, 'q': True} for i in range(n)]
-    ops += [{'op': 'ext_db', 'h': hname(i), 'st': 'finished', 'q': True} for i in range(0, n, 10)]
-    ops += [{'op': 'ext_db', 'h': hname(n + i), 'st': 'finished', 'q': True} for i in range(20)]
+    ops += [{'op': 'ext_db', 'h': hname(i), 'st': 'finished', 'q': True} for i in range(unrecorded, n)]
+    ops += [{'op': 'ext_db', 'h': hname(i), 'st': 'pending', 'q': True} for i in range(0, unrecorded, 50)]
+    ops += [{'op': 'ext_db', 'h': hname(n + i), 'st': 'finished', 'q': True} for i in range(missing)]
     ops += [{'op': 'restart', 'mode': 'new'}, {'op': 'restart', 'mode': 'new'}]
-    return {'blobs': {}, 'streams': [], 'ops': ops, 'kind': 'batch>500'}
+    return {'blobs': {}, 'streams': [], 'ops': ops, 'kind': 'batch:%d' % unrecorded}
 
 
 # ------------------------------------------------------------------------------------------------
@@ -821,6 +860,8 @@ def with_loop(fn):
 def report(run, case, mon, impl, mod):
     for o, st in zip(case['ops'], impl):
         run.count('op:' + o['op'] + ':' + st['r'])
+        if o.get('save') is not None:
+            run.count('restart-with-save_blobs=%s' % bool(o['save']))
     run.count('ops-per-case:%d' % (10 * (len(case['ops']) // 10)))
     if mon.bad:
         i, what = mon.bad[0]
@@ -879,7 +920,7 @@ def check_kill_case(run, model, case, kind):
     report(run, case, mon, impl, chosen[1])
 
 
-def gen_kill_case(rng):
+def gen_kill_case(rng, kind=None):
     nb = rng.randrange(3, 6)
     blobs = {}
     for _ in range(nb):
@@ -906,7 +947,7 @@ def gen_kill_case(rng):
                 ops.append({'op': 'restart', 'mode': rng.choice(['new', 'stop_same'])})
     ops.append({'op': 'publish', 'stream': 0})
     some_ops(rng.randrange(0, 6))
-    if rng.random() < 0.5:
+    if (kind or rng.choice(['crash_write', 'publish_crash'])) == 'crash_write':
         ln = len(blobs[victim]) // 2
         ops.append({'op': 'crash_write', 'h': victim, 'len': ln, 'written': ln, 'real_kill': True})
     else:
@@ -978,7 +1019,8 @@ def main(run):
                 'dead process) / publish (0-4 content blobs through the real create_stream with the chunk size patched small, one '
                 'real 2 MiB-chunk stream) / publish_crash(k files written, j recorded) / delete (1-3 names, with or without rows, '
                 'sometimes an invalid name) / stream_delete / ext_file (junk, true content, size 0) / ext_remove / ext_db (forced '
-                'row) / restart (fresh objects, stop()+fresh, stop()+setup() on the same object), always ending with two restarts; '
+                'row) / restart (fresh objects, stop()+fresh, stop()+setup() on the same object; in a quarter of the histories some '
+                'restarts switch config.save_blobs off or on), always ending with two restarts; '
                 'pre-state enumeration: every combination of (absent|file|directory) x (no row|pending|finished) per name; a '
                 '>500-file directory for the batch branch; name strings one edit away from a blob hash. distinct = distinct '
                 'case content; non-trivial = more than one kind of operation.')
@@ -1006,7 +1048,8 @@ def main(run):
             for b in combos[::2]:
                 check_case(run, model, prestate_case([(hname(0), *a), (hname(1), *b)]), 'prestate-2')
     mark('prestates')
-    check_case(run, model, big_case(vlib.scaled(run.tier, 570, 1700)), 'batch')
+    for unrec in vlib.scaled(run.tier, [513], [499, 500, 501, 502, 513, 1001, 1002, 1003, 1600]):
+        check_case(run, model, big_case(unrec), 'batch')
     mark('batch')
     # one stream with the real 2 MiB chunking
     real = {'blobs': {}, 'streams': [make_stream(rng, 0, real=True)],
@@ -1015,13 +1058,14 @@ def main(run):
                     {'op': 'restart', 'mode': 'new'}, {'op': 'restart', 'mode': 'new'}]}
     check_case(run, model, real, 'real-chunk')
     mark('real-chunk')
-    for _ in range(vlib.scaled(run.tier, 3, 60)):
-        check_case(run, model, gen_kill_case(rng), 'real-kill')
+    for i in range(vlib.scaled(run.tier, 3, 60)):
+        check_case(run, model, gen_kill_case(rng, ['publish_crash', 'crash_write', None][i % 3]), 'real-kill')
     mark('real-kill')
-    n_hist = vlib.scaled(run.tier, 90, 2500)
+    n_hist = vlib.scaled(run.tier, 140, 2500)
     for i in range(n_hist):
         nops = rng.choice([6, 12, 20, 30, 40])
-        check_case(run, model, gen_case(rng, nops, with_dirs=(i % 8 == 7), inject=(i % 3 != 0)), 'generated')
+        check_case(run, model, gen_case(rng, nops, with_dirs=(i % 8 == 7), inject=(i % 3 != 0), toggle_save=(i % 4 == 1)),
+                   'generated')
     mark('histories')
     for s in FIXED_NAMES:
         check_name(run, model, s, 'fixed')
@@ -1030,7 +1074,7 @@ def main(run):
     mark('names')
     run.notes.append({'seconds_per_section': {b[0]: round(b[1] - a[1], 1) for a, b in zip(marks, marks[1:])}})
     run.partial = []
-    run.supporting = {'not_modelled': 'config.save_blobs=False (BlobBuffer), blob lengths in the table, content hashes of files '
+    run.supporting = {'not_modelled': 'a change of config.save_blobs inside one process lifetime (get_blob buffer-to-file branch), blob lengths in the table, content hashes of files '
                                       '(setup never reads file content), non-ASCII and non-regular-file directory entries other '
                                       'than directories, a publish whose hashes already exist (keys are random)'}
     model.close()
